@@ -13,6 +13,7 @@ def run(chk):
     a64common.rule_imm(chk, A)
     a64common.rule_validators(chk, A)
     a64common.rule_mem_index(chk, A)
+    a64common.rule_mem_index_mode(chk, A)
     a64common.rule_shift_class(chk, A)
     a64common.rule_sibling_checks(chk, A)
     a64common.rule_shift_lossless(chk, A)
@@ -40,6 +41,8 @@ def run(chk):
     # C14.f every rejected input reaches the error handler
     errreport.run(chk)
     errreport.run_code_guard(chk)
+    errreport.run_dispatchers(chk)
+    errreport.run_label_after_validation(chk)
     # C14.d constant tables are never read out of bounds
     subscript.run_units(chk)
     nodeadd.run(chk)
@@ -52,6 +55,11 @@ def run(chk):
     a64common.rule_id_range_raw(chk, xemit, "x86::Assembler::_emit")
     from lib import sentinel
     sentinel.run_units(chk)
+    from lib import ubsigned
+    fns_ub = []
+    for unit, pat in (("asmjit/x86/x86assembler.cpp", r"x86::Assembler::_emit$"), ("asmjit/arm/a64assembler.cpp", r"a64::Assembler::_emit$|asmjit::a64::[a-z_0-9]+$")):
+        fns_ub += [g for g in cfg.load_functions(chk.facts(unit, funcs=pat)) if g.file.endswith(unit.split("/")[-1])]
+    ubsigned.run(chk, fns_ub)
 
     return chk.finish(
         level="other",
